@@ -48,9 +48,18 @@ def _k(f, n, resolve):
     return X.key(n, f, resolve)
 
 
-def _facts(f, n, pol, out, resolve, leaf):
+def _facts(f, n, pol, out, resolve, leaf, depth=0):
     n = X.strip(n)
     k = n["k"]
+    if k == "DeclRefExpr" and resolve and n.get("d") in resolve and depth < 4:
+        # a const local holding a condition (`bool const ok = a && b;`) is looked through: when it is true both
+        # conjuncts are; nothing is known about which disjunct made it true, hence leaf=False
+        init = X.strip(resolve[n["d"]])
+        if init["k"] in ("BinaryOperator", "UnaryOperator", "CXXOperatorCallExpr", "CXXMemberCallExpr", "CallExpr", "DeclRefExpr", "MemberExpr"):
+            kk = _k(f, n, None)
+            out.add(("true", kk) if pol else ("false", kk))
+            _facts(f, init, pol, out, resolve, False, depth + 1)
+            return
     if k == "UnaryOperator" and n["op"] == "!":
         _facts(f, X.kids(n)[0], not pol, out, resolve, leaf)
         return
